@@ -29,6 +29,11 @@ func checkOptimal(r *core.Run, bruteMax int, knownIDs map[string]string) func(c 
 		opt := optimum(r, c, rm, bruteMax)
 		nontrivial := len(a) > 0 && len(b) > 0
 		if res.score == opt {
+			// "the one Global/Local returns" is an alignment, not only a number: the returned steps must be
+			// that alignment (inside C08's domain, where the pinned tree guarantees it)
+			if f := stepsCarryScore(c, res, rm); f != "" {
+				return core.Failf("%s", f)
+			}
 			return core.Outcome{Class: c.Fn + " optimal", Nontrivial: nontrivial}
 		}
 		what := "an alignment"
@@ -52,6 +57,35 @@ func checkOptimal(r *core.Run, bruteMax int, knownIDs map[string]string) func(c 
 	}
 }
 
+// stepsCarryScore re-scores the returned steps (C08's clause) for results whose score is optimal. Local
+// with positive gap scores is outside C08's domain and is not judged here.
+func stepsCarryScore(c alnCase, res alnResult, rm ref.Mat) string {
+	a, b := c.A.B(), c.B.B()
+	if c.Fn == "Global" {
+		sc, na, nb, ok := ref.Rescore(a, b, 0, 0, res.steps, rm)
+		if !ok || na != len(a) || nb != len(b) || sc != res.score {
+			return fmt.Sprintf("Global(%q,%q,%s) returned the optimal score %v but steps %v that score %v and consume %d of %d and %d of %d letters", a, b, c.Matrix, res.score, res.steps, sc, na, len(a), nb, len(b))
+		}
+		return ""
+	}
+	for k, v := range rm {
+		if (k[0] == ref.GapSym || k[1] == ref.GapSym) && v > 0 {
+			return ""
+		}
+	}
+	if len(res.steps) == 0 {
+		if res.score != 0 {
+			return fmt.Sprintf("Local(%q,%q,%s) returned score %v and no steps", a, b, c.Matrix, res.score)
+		}
+		return ""
+	}
+	sc, _, _, ok := ref.Rescore(a, b, res.ai, res.bi, res.steps, rm)
+	if !ok || sc != res.score {
+		return fmt.Sprintf("Local(%q,%q,%s) returned the optimal score %v but steps %v from offsets (%d,%d) that score %v (inside the sequences: %v)", a, b, c.Matrix, res.score, res.steps, res.ai, res.bi, sc, ok)
+	}
+	return ""
+}
+
 type c09Table struct {
 	Matrix string `json:"matrix"`
 	A      int    `json:"a"`
@@ -59,6 +93,7 @@ type c09Table struct {
 }
 
 func runC09(r *core.Run) {
+	firstCallClause(r, "align.Global", "align.Local")
 	L2 := core.Pick(r, 5, 8)
 	bruteMax := core.Pick(r, 3, 4)
 	r.Bound("pairs", fmt.Sprintf("all ordered pairs over {A,B}^<=%d and {A,B,C}^<=%d; Levenshtein over {a,b,c}^<=%d; shipped over {A,R,W,X}^<=%d", L2, core.Pick(r, 3, 5), core.Pick(r, 4, 5), core.Pick(r, 3, 4)))
@@ -193,6 +228,7 @@ func matrixAlphabet(m align.SubstitutionMatrix) []byte {
 }
 
 func runC10(r *core.Run) {
+	firstCallClause(r, "align.Global", "align.Local")
 	L2 := core.Pick(r, 6, 8)
 	bruteMax := core.Pick(r, 3, 4)
 	r.Bound("pairs", fmt.Sprintf("all ordered pairs over {A,B}^<=%d and {A,B,C}^<=%d", L2, core.Pick(r, 3, 5)))
